@@ -427,5 +427,11 @@ def check_pair_position(ctx, f_override=None):
         ok = bool(guard)
         why = '`%s` is advanced per prefix token and stored unguarded: a repeated token (bag of q-grams) overwrites its ' \
               'first position with a later one, the overlap bound becomes too small' % pos
+    if ok and not advanced:
+        # a constant position: it must not exceed the first position of any token (0)
+        init = [d for d in view.reaching(pos, st) if d.value is not None]
+        ok = bool(init) and all(isinstance(d.value, ast.Constant) and isinstance(d.value.value, int) and d.value.value <= 0 for d in init)
+        why = '`%s` is stored as the left position of every prefix token but starts at %s: a position larger than the real ' \
+              'one under-estimates the tokens still to come and prunes qualifying pairs' % (pos, [U(d.value) for d in init])
     ctx.check('R-CAND/pair-position', f, 'left position', ok, why, st,
               sample='stored left position is %s' % ('constant 0 (safe over-estimate)' if not advanced else 'first occurrence'))
